@@ -5,6 +5,8 @@ from .facts import Facts
 
 VERIF = extract.VERIF
 KNOWN_FILE = os.path.join(VERIF, "known_findings.txt")
+# the self-test runs checks against mutated scratch copies; their evidence / reports go elsewhere
+OUT = os.environ.get("TF_OUT", VERIF)
 
 TRUSTED_BASE = [
     "IEEE-754 binary64 round-to-nearest-even semantics of MIR Add/Sub/Mul/Div/Neg on f64 (SSE2/NEON, no x87 double rounding)",
@@ -108,9 +110,19 @@ def run_property(prop, fn, level, tier, seed, checker_cmd, explanation, assumpti
                  "reason=crate-does-not-build configuration %s: %s" % (e.cfg, first), {"log": e.log[-4000:]})
     except Exception as e:
         rep.fail("internal", "checker", "internal-error", "checker raised %r (fail closed)" % (e,), {"trace": traceback.format_exc()})
+    selftest = None
+    if tier == "thorough" and not os.environ.get("TF_OUT"):
+        try:
+            from . import selftest as st
+            selftest = st.run(prop)
+            for r in selftest:
+                if r["status"] == "MISS":
+                    sys.stderr.write("SELFTEST-MISS property=%s mutant=%s (%s)\n" % (prop, r["id"], r.get("note")))
+        except Exception as e:
+            selftest = [{"id": "selftest", "status": "error", "why": repr(e)}]
     viol = [o for o in rep.obl if o["status"] == "violation"]
     exit_code = 0
-    os.makedirs(os.path.join(VERIF, "reports"), exist_ok=True)
+    os.makedirs(os.path.join(OUT, "reports"), exist_ok=True)
     n_known = 0
     for o in viol:
         k = (prop, o["key"])
@@ -121,7 +133,7 @@ def run_property(prop, fn, level, tier, seed, checker_cmd, explanation, assumpti
             continue
         import hashlib
         safe = re.sub(r"[^A-Za-z0-9_.-]+", "_", o["key"])[:100] + "-" + hashlib.sha1(o["key"].encode()).hexdigest()[:8]
-        path = os.path.join(VERIF, "reports", "%s-%s.json" % (prop, safe))
+        path = os.path.join(OUT, "reports", "%s-%s.json" % (prop, safe))
         with open(path, "w") as fh:
             json.dump(jsonable({"property": prop, "rule": o["rule"], "instance": o["instance"], "key": o["key"],
                                 "message": o["message"], "where": o.get("where"), "data": o.get("data")}), fh, indent=1)
@@ -160,13 +172,17 @@ def run_property(prop, fn, level, tier, seed, checker_cmd, explanation, assumpti
         "analysed": jsonable(rep.analysed),
         "notes": rep.notes,
         "known_findings_reported": n_known,
+        "selftest": None if selftest is None else {
+            "mutants": len(selftest), "killed": len([r for r in selftest if r["status"].startswith("killed")]),
+            "missed": [r["id"] for r in selftest if r["status"] == "MISS"], "skipped": [r["id"] for r in selftest if r["status"] == "skipped"],
+            "matrix": selftest},
         "tree": extract.tree_hash(),
         "repo": extract.REPO,
     }
     ev = {"property_id": prop, "tier": tier, "seed": seed, "level": level, "coverage": cov,
           "assumptions": assumptions, "wall_s": round(time.time() - rep.t0, 3), "violations": n_viol}
-    os.makedirs(os.path.join(VERIF, "evidence"), exist_ok=True)
-    path = os.path.join(VERIF, "evidence", "%s.json" % prop)
+    os.makedirs(os.path.join(OUT, "evidence"), exist_ok=True)
+    path = os.path.join(OUT, "evidence", "%s.json" % prop)
     tmp = path + ".tmp%d" % os.getpid()
     with open(tmp, "w") as fh:
         json.dump(ev, fh, indent=1)
